@@ -48,10 +48,12 @@ class RemoveEnclosingMiddleware(BlockMiddleware):
     @staticmethod
     def _strip_enclosing(value: str) -> Tuple[str, Union[str, None]]:
         value = value.strip()
-        if value.startswith("{") and value.endswith("}"):
-            return value[1:-1], "{"
-        if value.startswith('"') and value.endswith('"'):
-            return value[1:-1], '"'
+        # A single `{` or `"` is not an enclosing pair
+        if len(value) >= 2:
+            if value.startswith("{") and value.endswith("}"):
+                return value[1:-1], "{"
+            if value.startswith('"') and value.endswith('"'):
+                return value[1:-1], '"'
         return value, "no-enclosing"
 
     # docstr-coverage: inherited
